@@ -404,6 +404,8 @@ func genQuery(r *hv.Rng, focus []string) string {
 			segs = append(segs, "") // empty parameter
 		case 3:
 			segs = append(segs, r.Pick([]string{"%zz=1", "a=%4", "x;y=1", "=v", "a=b=c", "%", "a%3Db=1", "a%26b=2"}))
+		case 4, 5: // the key is fine but url.ParseQuery drops the parameter (bad escape in the value, ';')
+			segs = append(segs, encKey(r, k)+"="+r.Pick([]string{"%zz", "s3cret;x", "%4", "a;b;c", "%"}))
 		default:
 			segs = append(segs, encKey(r, k)+"="+r.Pick([]string{"1", "2", "x+y", "%41", "v", "a", "http%3A%2F%2Fe.org%2Fp%3Fq%3D1", "x=y", "=", "a=1=2"}))
 		}
@@ -411,7 +413,8 @@ func genQuery(r *hv.Rng, focus []string) string {
 	return strings.Join(segs, "&")
 }
 
-var hosts = []string{"www.example.com", "example.com", "a.b.example.org", "example.org:8080", "com", ""}
+var hosts = []string{"www.example.com", "example.com", "a.b.example.org", "example.org:8080", "com", "", "www.cnblogs.cn", "comcast.com",
+	"cdn.example.com.example.com", ".com.com"}
 var paths = []string{"/", "", "/a", "/a/b", "/a/b/c", "/service/shortcut/x", "/x.example.com/y/z", "/x.example.com", "//a", "a/b/c", "/rewrite/", "/a%20b"}
 
 func genURL(r *hv.Rng, focus []string) hv.Val {
@@ -442,7 +445,7 @@ func genRewrite(r *hv.Rng) (string, hv.Val) {
 		params = []string{r.Pick([]string{"m.example.com", "x", "example.org:80"})}
 	case "HOST_SET_FROM_PATH_PREFIX":
 	case "HOST_SUFFIX_REPLACE":
-		params = []string{r.Pick([]string{".com", "example.com", ".org", "www.example.com", "x", ":8080", "m"}), r.Pick([]string{".cn", "example.net", "y"})}
+		params = []string{r.Pick([]string{".com", "example.com", ".org", "www.example.com", "x", ":8080", "m", ".cn", "com", ".example.com"}), r.Pick([]string{".cn", "example.net", "y"})}
 	case "PATH_SET":
 		params = []string{r.Pick([]string{"/new", "new", "/"})}
 	case "PATH_PREFIX_ADD":
